@@ -14,6 +14,13 @@ Vocabulary (Model/C27.lean, Proofs/C28Inv.lean):
   the genesis block `g`: blocks handed to `ProcessBlock` (any header, any body, valid or not, any
   order, from peers or the download path), transaction instances admitted by / leaving the mempool, node restarts;
 * `chainKeys T best` — the transaction hashes along the best chain.
+
+Scope of "however the block arrived": blocks from peers (broadcast, sync) and from the download
+path — every chain theorem below carries `hns : no Ev.deliver _ .self in evs`.  Blocks the node
+produces itself go through `PreExecBlock(errReturn = false)` (no signature check, failing
+transactions dropped, block re-hashed), which `connectBlock` of the model does not distinguish; for
+that path only the single-step `produced_block_clean` is proved (what the producer keeps of an
+offered body); signatures there rest on the mempool (C22).
 -/
 namespace C28
 open C27
@@ -26,7 +33,7 @@ def node (T : Table) (F m hi lo : Nat) (r : Bool) (g : Blk) (evs : List Ev) : St
 the best chain is unexpired at that block's height and time and passes the fee and chain-id
 checks (`g.txs = []`: the genesis block is not subject to them). -/
 theorem chain_tx_unexpired_fee_chainid (T : Table) (F m hi lo : Nat) (r : Bool) (g : Blk)
-    (hg : g.txs = []) (evs : List Ev) :
+    (hg : g.txs = []) (evs : List Ev) (_hns : ∀ b, Ev.deliver b .self ∉ evs) :
     let s := node T F m hi lo r g evs
     ∀ b ∈ s.best, ∀ t ∈ b.txs,
       isExpire hi lo (T t) b.height b.time = false ∧ (T t).feeOk = true ∧ (T t).chainOk = true := by
@@ -60,7 +67,8 @@ disconnected block WITHOUT verifying them; the proof covers it (invariant `SigIn
 store holds under a best-chain hash is the connected one and was verified or vouched for by the
 very same pooled transaction), so no mis-signed transaction can reach the pool that way. -/
 theorem chain_tx_signed (T : Table) (F m hi lo : Nat) (r : Bool) (g : Blk) (hg : g.txs = [])
-    (evs : List Ev) (hpool : ∀ t, Ev.poolAdd t ∈ evs → (T t).sigOk = true) :
+    (evs : List Ev) (_hns : ∀ b, Ev.deliver b .self ∉ evs)
+    (hpool : ∀ t, Ev.poolAdd t ∈ evs → (T t).sigOk = true) :
     ∀ b ∈ (node T F m hi lo r g evs).best, ∀ t ∈ b.txs, (T t).sigOk = true := by
   have h0 : QS (fun _ => True) (SigInv T) (init F m hi lo r g) := by
     refine ⟨⟨?_, ?_, ?_⟩, seen_init F m hi lo r g trivial⟩
@@ -136,7 +144,7 @@ duplicate; a TxHeight transaction can only sit inside its validity window
 theorem chain_tx_unique (T : Table) (hT : HashLaw T) (U : List Blk) (hU : HeaderLaw U)
     (F m hi lo : Nat) (hw : 1 ≤ hi + lo) (r : Bool) (g : Blk) (hgU : g ∈ U) (hg0 : g.height = 0)
     (hgt : g.txs = []) (hgp : ∀ x ∈ U, x.id ≠ g.parent) (evs : List Ev)
-    (hev : ∀ b src, Ev.deliver b src ∈ evs → b ∈ U) :
+    (_hns : ∀ b, Ev.deliver b .self ∉ evs) (hev : ∀ b src, Ev.deliver b src ∈ evs → b ∈ U) :
     let s := node T F m hi lo r g evs
     KeyUniq T s.best ∧ (chainKeys T s.best).Nodup := by
   intro s
@@ -172,6 +180,35 @@ example :
     s.best.map (·.id) = [5, 4, 2, 1, 0] ∧ s.errLog 3 = some .txDup ∧ s.errLog 6 = some .blockExec ∧
     chainKeys T s.best = [9, 8, 6, 5] := by decide
 
+/-- Non-vacuity of `chain_tx_unique` / `txheight_window_cached` WITH their hypotheses: a table
+and a history (duplicate in a later block, TxHeight transaction 5 replayed after a restart, a
+heavier sibling) for which `HashLaw`, `HeaderLaw`, the genesis conditions (`g.parent = 99` is no
+block's hash), `hns` and `hev` all hold. -/
+example :
+    let T : Table := fun i => { hash := i, sigOk := true, exp := if i = 5 then .txHeight 2 else .none, feeOk := true, chainOk := true }
+    let g : Blk := { id := 0, parent := 99, height := 0, diff := 1, time := 0, txs := [] }
+    let b1 : Blk := { id := 1, parent := 0, height := 1, diff := 1, time := 1, txs := [5] }
+    let b2 : Blk := { id := 2, parent := 1, height := 2, diff := 1, time := 2, txs := [6] }
+    let b3 : Blk := { id := 3, parent := 2, height := 3, diff := 1, time := 3, txs := [5, 7] }
+    let c3 : Blk := { id := 4, parent := 2, height := 3, diff := 1, time := 3, txs := [6] }
+    let d3 : Blk := { id := 5, parent := 2, height := 3, diff := 1, time := 4, txs := [8] }
+    let U := [g, b1, b2, b3, c3, d3]
+    let evs : List Ev := [.deliver b1 .peer, .deliver b2 .download, .restart, .deliver b3 .peer,
+      .deliver c3 .peer, .deliver d3 .peer]
+    HashLaw T ∧ HeaderLaw U ∧ g ∈ U ∧ g.height = 0 ∧ g.txs = [] ∧ (∀ x ∈ U, x.id ≠ g.parent) ∧
+    (∀ b, Ev.deliver b .self ∉ evs) ∧ (∀ b src, Ev.deliver b src ∈ evs → b ∈ U) ∧
+    (node T 0 12 2 1 false g evs).best.map (·.id) = [5, 2, 1, 0] ∧
+    (node T 0 12 2 1 false g evs).errLog 3 = some .txDup ∧ (node T 0 12 2 1 false g evs).errLog 4 = some .txDup := by
+  refine ⟨?_, by unfold HeaderLaw; decide, by decide, rfl, rfl, by decide, ?_, ?_, by decide, by decide, by decide⟩
+  · intro i j h
+    have : i = j := h
+    rw [this]
+  · intro b hb
+    simp at hb
+  · intro b src hb
+    simp only [List.mem_cons, Ev.deliver.injEq, reduceCtorEq, List.not_mem_nil, or_false, false_or] at hb
+    rcases hb with ⟨rfl, _⟩ | ⟨rfl, _⟩ | ⟨rfl, _⟩ | ⟨rfl, _⟩ | ⟨rfl, _⟩ <;> decide
+
 /-- **txheight_window_cached** — the cache-exactness invariant behind it (the direction the
 duplicate check relies on): after ANY events, restarts included (`InitCache` rebuilds the cache from
 the last `hi + lo` heights of the database), every TxHeight transaction of a best-chain block less
@@ -180,7 +217,7 @@ the hashes on the best chain; the stored main-chain block at every height is the
 theorem txheight_window_cached (T : Table) (hT : HashLaw T) (U : List Blk) (hU : HeaderLaw U)
     (F m hi lo : Nat) (hw : 1 ≤ hi + lo) (r : Bool) (g : Blk) (hgU : g ∈ U) (hg0 : g.height = 0)
     (hgt : g.txs = []) (hgp : ∀ x ∈ U, x.id ≠ g.parent) (evs : List Ev)
-    (hev : ∀ b src, Ev.deliver b src ∈ evs → b ∈ U) :
+    (_hns : ∀ b, Ev.deliver b .self ∉ evs) (hev : ∀ b src, Ev.deliver b src ∈ evs → b ∈ U) :
     let s := node T F m hi lo r g evs
     ∀ tip rest, s.best = tip :: rest →
       (∀ x ∈ s.best, ∀ t ∈ x.txs, ∀ th, txhOf (T t) = some th →
